@@ -119,6 +119,13 @@ impl Scenario for Hb {
                 byte_ix += 1;
             }
         }
+        let horizon_ms0 = if h == 0 { 1_000_000_000 } else { 6 * h * 1000 };
+        if byte_ix % 8 != 0 {
+            // single bytes leave a frame unfinished: the server finishes it just before the
+            // horizon, so that its reply to the client's close does not land inside it
+            let rest: Vec<u8> = (byte_ix % 8..8).map(|i| hbf[i]).collect();
+            broker.timed.push_back(((horizon_ms0 - 1) * MS, rest));
+        }
         let mut cfg = EnvConfig::default();
         let dead_peer = p["dead_peer"] == true;
         cfg.no_grants = dead_peer;
@@ -223,6 +230,9 @@ impl Scenario for Hb {
                     v.push(("hb:wrong-error".into(), format!("close returned {:?} after missed heartbeats", close_res)));
                 }
             }
+            // (2h of silence completing exactly at the horizon: the close made at that instant
+            // may or may not find the connection dead)
+            (None, None) if close_res.as_deref() == Some("Err(MissedServerHeartbeats)") && last_rx + 2 * hn <= horizon + g && o.io_exit_time_ns.map(|t| t + 5 * MS >= last_rx + 2 * hn).unwrap_or(false) => {}
             (None, None) => {
                 if close_res.as_deref() != Some("Ok") {
                     v.push(("hb:close".into(), format!("server kept talking but close returned {:?}", close_res)));
